@@ -1,21 +1,30 @@
 (* Model of validation/rules/overlapping_fields_can_be_merged.py (rule 25)
-   after fixes C05-01 (_same_arguments on non scalar values) and C05-02
-   (nested fragment pairs). The recursion through fragments is bounded by the
-   compared-pairs cache and the per-walk compared-fragments set exactly as in
-   the code; in Gallina it runs on explicit fuel.
+   after fixes C05-01 (_same_arguments on non scalar values), C05-02 (nested
+   fragment pairs) and C05-07 (a collection of fields and a fragment are
+   compared once). The recursion through fragments is bounded by the two memo
+   sets of the code: compared fragment pairs, and compared (field map,
+   fragment) pairs; in Gallina it runs on explicit fuel, and the memo sets are
+   kept as their complements with respect to the finite universe of keys of
+   the document ("not yet compared": every fragment name pair / every
+   (selection set, fragment name), with the exclusivity flag), which is what
+   makes the stated fuel provably sufficient. A field map is identified by
+   the location of its selection set (unique in parser output; Python uses
+   the identity of the cached dict).
 
-   Not modelled: the memo table ctx.fields_and_fragments (pure cache) and the
+   Not modelled: the memo table ctx.fields_and_fragments (pure cache), the
    identity test `field_map is fragment_field_map` (it only avoids comparing a
    fragment with itself, which can add no conflict that the "within" pass of
-   the same selection set does not report). Only whether a selection set has
-   a conflict is computed, not the conflict's reason. *)
+   the same selection set does not report) and the per-walk compared_fragments
+   set (subsumed by the (field map, fragment) memo: within one walk the field
+   map and the flag are fixed). Only whether a selection set has a conflict is
+   computed, not the conflict's reason. *)
 From PyGql Require Export Valid.ValidRules.
 
 Record finfo := FInfo {
   fi_parent : option str;            (* named parent type, any kind *)
   fi_name : str;
   fi_args : list argument;
-  fi_sub : option (list selection);
+  fi_sub : option (loc * list selection);   (* selection set: its location and selections *)
   fi_def : option sfield }.
 Definition fmap := list (str * list finfo).
 
@@ -44,7 +53,7 @@ Fixpoint ov_collect_sel (s : schema) (parent : option str) (x : selection)
                 | None => n_val n
                 end in
       (fmap_add rn (FInfo parent (n_val n) args
-                          (match sl with Some _ => Some sub | None => None end)
+                          (match sl with Some l0 => Some (l0, sub) | None => None end)
                           (ov_field_def s parent (n_val n))) (fst acc), snd acc)
   | SSpread n _ _ => (fst acc, snd acc ++ [n_val n])
   | SInline tc _ _ sub _ =>
@@ -134,17 +143,26 @@ Definition opt_is_object (s : schema) (a : option str) : bool :=
 Inductive call :=
 | CFind (me : bool) (f1 f2 : finfo)
 | CBetween (me : bool) (m1 m2 : fmap)
-| CFieldsFrag (me : bool) (m : fmap) (f : str)
-| CFieldsFragFresh (me : bool) (m : fmap) (f : str)
+| CFieldsFrag (me : bool) (mid : loc) (m : fmap) (f : str)
 | CFrags (me : bool) (f1 f2 : str)
-| CSub (me : bool) (p1 : option str) (s1 : list selection) (p2 : option str) (s2 : list selection).
+| CSub (me : bool) (p1 : option str) (l1 : loc) (s1 : list selection)
+       (p2 : option str) (l2 : loc) (s2 : list selection).
 
-(* (compared fragment pairs, compared fragments of the current walk) *)
-Definition ostate := (list (str * str * bool) * list str)%type.
+(* (fragment pairs not yet compared, (field map, fragment) pairs not yet compared) *)
+Definition ostate := (list (str * str * bool) * list (loc * str * bool))%type.
 
-Definition pair_cached (c : list (str * str * bool)) (a b : str) (me : bool) : bool :=
-  existsb (fun k => let '(x, y, m) := k in
-                    Bool.eqb m me && ((str_eqb x a && str_eqb y b) || (str_eqb x b && str_eqb y a))) c.
+Definition loc_eqb (a b : loc) : bool :=
+  match a, b with
+  | Some (x, y), Some (x', y') => Nat.eqb x x' && Nat.eqb y y'
+  | None, None => true
+  | _, _ => false
+  end.
+
+Definition pkey_match (a b : str) (me : bool) (k : str * str * bool) : bool :=
+  let '(x, y, m) := k in
+  Bool.eqb m me && ((str_eqb x a && str_eqb y b) || (str_eqb x b && str_eqb y a)).
+Definition qkey_match (l : loc) (f : str) (me : bool) (k : loc * str * bool) : bool :=
+  let '(l', f', m) := k in Bool.eqb m me && loc_eqb l' l && str_eqb f' f.
 
 Fixpoint perms {A} (l : list A) : list (A * A) :=
   match l with [] => [] | x :: l' => map (fun y => (x, y)) l' ++ perms l' end.
@@ -199,8 +217,8 @@ Fixpoint run (fuel : nat) (s : schema) (frs : list (str * (ty * list selection))
           else if match t1, t2 with Some a, Some b => types_conflict s a b | _, _ => false end
                then Ok (true, st)
           else match fi_sub f1, fi_sub f2 with
-               | Some s1, Some s2 =>
-                   run f s frs (CSub mex (option_map unwrap t1) s1 (option_map unwrap t2) s2) st
+               | Some (l1, s1), Some (l2, s2) =>
+                   run f s frs (CSub mex (option_map unwrap t1) l1 s1 (option_map unwrap t2) l2 s2) st
                | _, _ => Ok (false, st)
                end
       | CBetween me m1 m2 =>
@@ -208,36 +226,29 @@ Fixpoint run (fuel : nat) (s : schema) (frs : list (str * (ty * list selection))
                                    | Some fs2 => map (fun p => CFind me (fst p) (snd p)) (cross (snd kv) fs2)
                                    | None => []
                                    end) m1) st false
-      | CFieldsFrag me m fr =>
-          if mem_str fr (snd st) then Ok (false, st)
-          else let st1 := (fst st, fr :: snd st) in
+      | CFieldsFrag me mid m fr =>
+          if negb (existsb (qkey_match mid fr me) (snd st)) then Ok (false, st)
+          else let st1 := (fst st, filter (fun k => negb (qkey_match mid fr me k)) (snd st)) in
                match frag_ff s frs fr with
                | None => Ok (false, st1)
-               | Some (fm2, fns) => seq (CBetween me m fm2 :: map (CFieldsFrag me m) fns) st1 false
+               | Some (fm2, fns) => seq (CBetween me m fm2 :: map (CFieldsFrag me mid m) fns) st1 false
                end
-      | CFieldsFragFresh me m fr =>
-          match run f s frs (CFieldsFrag me m fr) (fst st, []) with
-          | Ok (b, st') => Ok (b, (fst st', snd st))
-          | OutOfFuel => OutOfFuel
-          | Rejected k p => Rejected k p
-          | Crash k => Crash k
-          end
       | CFrags me a b =>
           if str_eqb a b then Ok (false, st)
-          else if pair_cached (fst st) a b me then Ok (false, st)
-          else let st1 := ((a, b, me) :: fst st, snd st) in
+          else if negb (existsb (pkey_match a b me) (fst st)) then Ok (false, st)
+          else let st1 := (filter (fun k => negb (pkey_match a b me k)) (fst st), snd st) in
                match frag_ff s frs a, frag_ff s frs b with
                | Some (fm1, fns1), Some (fm2, fns2) =>
                    seq (CBetween me fm1 fm2
                         :: map (fun x => CFrags me x b) fns1 ++ map (fun x => CFrags me a x) fns2) st1 false
                | _, _ => Ok (false, st1)
                end
-      | CSub me p1 s1 p2 s2 =>
+      | CSub me p1 l1 s1 p2 l2 s2 =>
           let ff1 := fields_and_fragments s p1 s1 in
           let ff2 := fields_and_fragments s p2 s2 in
           seq (CBetween me (fst ff1) (fst ff2)
-               :: map (CFieldsFragFresh me (fst ff1)) (snd ff2)
-               ++ map (CFieldsFragFresh me (fst ff2)) (snd ff1)
+               :: map (CFieldsFrag me l1 (fst ff1)) (snd ff2)
+               ++ map (CFieldsFrag me l2 (fst ff2)) (snd ff1)
                ++ map (fun p => CFrags me (fst p) (snd p)) (cross (snd ff1) (snd ff2))) st false
       end
   end.
@@ -250,25 +261,65 @@ Fixpoint run_list (fuel : nat) (s : schema) (frs : list (str * (ty * list select
   end.
 
 (* find_conflicts_within_selection_set *)
-Definition selset_calls (s : schema) (parent : option str) (sels : list selection) : list call :=
+Definition selset_calls (s : schema) (parent : option str) (l : loc) (sels : list selection) : list call :=
   let ff := fields_and_fragments s parent sels in
   flat_map (fun kv => map (fun p => CFind false (fst p) (snd p)) (perms (snd kv))) (fst ff)
-  ++ map (CFieldsFrag false (fst ff)) (snd ff)
+  ++ map (CFieldsFrag false l (fst ff)) (snd ff)
   ++ map (fun p => CFrags false (fst p) (snd p)) (perms (snd ff)).
 
 Fixpoint overlap_events (fuel : nat) (s : schema) (frs : list (str * (ty * list selection)))
-         (es : list ev) (cache : list (str * str * bool)) : outcome (list viol) :=
+         (es : list ev) (st : ostate) : outcome (list viol) :=
   match es with
   | [] => Ok []
-  | ESelSet parent sels :: es' =>
-      do r <- run_list fuel s frs (selset_calls s parent sels) (cache, []) false;
-      do rest <- overlap_events fuel s frs es' (fst (snd r));
+  | ESelSet parent l sels :: es' =>
+      do r <- run_list fuel s frs (selset_calls s parent l sels) st false;
+      do rest <- overlap_events fuel s frs es' (snd r);
       Ok ((if fst r then [mk 25 None] else []) ++ rest)
-  | _ :: es' => overlap_events fuel s frs es' cache
+  | _ :: es' => overlap_events fuel s frs es' st
   end.
 
+(* ---- the finite universe of memo keys of a document ---- *)
+Definition both_flags {A} (x : A) : list (A * bool) := [(x, true); (x, false)].
+Definition pair_universe (names : list str) : list (str * str * bool) :=
+  flat_map (fun a => flat_map (fun b => both_flags (a, b)) names) names.
+Definition selset_locs (es : list ev) : list loc :=
+  flat_map (fun e => match e with ESelSet _ l _ => [l] | _ => [] end) es.
+Definition ff_universe (locs : list loc) (names : list str) : list (loc * str * bool) :=
+  flat_map (fun l => flat_map (fun f => both_flags (l, f)) names) locs.
+Definition initial_state (s : schema) (d : document) : ostate :=
+  let names := map fst (frag_table (doc_defs d)) in
+  (pair_universe names, ff_universe (selset_locs (doc_events s d)) names).
+
 Definition r25_overlapping_fields (fuel : nat) (s : schema) (d : document) : outcome (list viol) :=
-  overlap_events fuel s (frag_table (doc_defs d)) (doc_events s d) [].
+  overlap_events fuel s (frag_table (doc_defs d)) (doc_events s d) (initial_state s d).
+
+(* ---- the stated fuel ---- *)
+Fixpoint sel_h (x : selection) : nat :=
+  match x with
+  | SField _ _ _ _ _ sub _ =>
+      S ((fix go (ss : list selection) : nat :=
+            match ss with [] => 0 | y :: ys => Nat.max (sel_h y) (go ys) end) sub)
+  | SSpread _ _ _ => 0
+  | SInline _ _ _ sub _ =>
+      S ((fix go (ss : list selection) : nat :=
+            match ss with [] => 0 | y :: ys => Nat.max (sel_h y) (go ys) end) sub)
+  end.
+Fixpoint sels_h (ss : list selection) : nat :=
+  match ss with [] => 0 | y :: ys => Nat.max (sel_h y) (sels_h ys) end.
+Definition def_body (d : definition) : list selection :=
+  match d with
+  | DOperation _ _ _ _ _ sels _ => sels
+  | DFragment _ _ _ _ _ sels _ => sels
+  | _ => []
+  end.
+Fixpoint defs_h (ds : list definition) : nat :=
+  match ds with [] => 0 | d :: ds' => Nat.max (sels_h (def_body d)) (defs_h ds') end.
+
+Definition state_size (st : ostate) : nat := length (fst st) + length (snd st).
+(* every memo key buys one more descent through the deepest selection *)
+Definition overlap_fuel (s : schema) (d : document) : nat :=
+  let h := defs_h (doc_defs d) in
+  state_size (initial_state s d) * (3 * h + 4) + 3 * h + 3.
 
 (* ------------------------------------------------------------------ *)
 (* validate_model: concatenation of the per-rule results               *)
@@ -313,3 +364,6 @@ Definition validate_rules (fuel : nat) (s : schema) (d : document) (rs : list N)
   ocat (rule_model fuel s d) rs.
 Definition validate_model (fuel : nat) (s : schema) (d : document) : outcome (list viol) :=
   validate_rules fuel s d all_rules.
+(* with the stated fuel *)
+Definition validate (s : schema) (d : document) : outcome (list viol) :=
+  validate_model (overlap_fuel s d) s d.
